@@ -187,6 +187,11 @@ pub fn start_block(s: &Spec, rng: &mut Rng) -> Vec<u8> {
 	st[so::VERSION + 1] = s.ver.1;
 	st[so::VERSION + 2] = s.ver.2;
 	st[so::VERSION + 3] = s.build;
+	// stage ids are small numbers in practice: half of the rich blocks carry one
+	if s.rich_start && rng.chance(1, 2) {
+		let stage = *rng.pick(&[2u16, 3, 8, 28, 31, 32, 0, 1, 24, 40]);
+		st[so::STAGE..so::STAGE + 2].copy_from_slice(&stage.to_be_bytes());
+	}
 	st[so::TEAMS] = if s.teams { 1 + rng.below(255) as u8 } else { 0 };
 	for slot in 0..6 {
 		let o = so::PLAYERS + so::PLAYER_STRIDE * slot;
